@@ -101,6 +101,15 @@ def template_labelled(add):
 PERM_ATOMS = [4]
 
 
+def _explicit_bonds(smiles):
+    from rdkit import Chem
+
+    m = Chem.MolFromSmiles(smiles)
+    if m is None or not any(a.GetIsAromatic() for a in m.GetAtoms()):
+        return None
+    return Chem.MolToSmiles(m, allBondsExplicit=True)
+
+
 def variants(rx, max_perm_atoms=None):
     max_perm_atoms = PERM_ATOMS[0] if max_perm_atoms is None else max_perm_atoms
     left, right = [s.split(".") for s in rx.split(">>")]
@@ -110,6 +119,10 @@ def variants(rx, max_perm_atoms=None):
     spellings = []
     for m in mols:
         sp = universe.spell(m)
+        # every bond written out ('-' and the aromatic ':'), e.g. c1:c:c:c:c:c:1 - text that looks like a map number
+        eb = _explicit_bonds(m)
+        if eb and eb not in sp:
+            sp.append(eb)
         if oracle.parse(m).GetNumAtoms() <= max_perm_atoms:
             for s in universe.permutation_spellings(m, max_perm_atoms):
                 if s not in sp:
